@@ -1,5 +1,5 @@
 #!/bin/bash
-# usage: tools/recheck_parallel.sh [workers]
+# usage: [SEEDS=<regex over seed names>] tools/recheck_parallel.sh [workers]   (with SEEDS the log goes to docs/recheck_subset.txt)
 # The regression of tools/recheck_all.sh, run by several workers at once. Each worker gets a private copy of /repo and of
 # /verif/target (and private evidence / replays directories) under /tmp/rw/<k>, bind-mounted over the real paths inside a
 # mount namespace of its own (unshare -m), so that the checks run unmodified. The copies are removed at the end.
@@ -8,7 +8,8 @@ N=${1:-4}
 cd /verif
 git -C /repo status --short | grep -q . && { echo "/repo is not clean"; exit 2; }
 rm -rf /tmp/rw; mkdir -p /tmp/rw
-ls seeded > /tmp/rw/all.txt
+ls seeded | grep -E "${SEEDS:-.}" > /tmp/rw/all.txt
+LOG=docs/recheck_last.txt; [ -n "$SEEDS" ] && LOG=docs/recheck_subset.txt
 for k in $(seq 1 $N); do
   mkdir -p /tmp/rw/$k/evidence /tmp/rw/$k/replays
   cp -a /repo /tmp/rw/$k/repo
@@ -34,8 +35,8 @@ worker() {
 }
 for k in $(seq 1 $N); do worker $k & done
 wait
-cat /tmp/rw/*/out.txt | sort -k2 > docs/recheck_last.txt
-bad=$(grep -vc '^ok ' docs/recheck_last.txt)
-echo "seeds=$(wc -l < /tmp/rw/all.txt) lines=$(wc -l < docs/recheck_last.txt) not_ok=$bad" | tee -a docs/recheck_last.txt
+cat /tmp/rw/*/out.txt | sort -k2 > $LOG
+bad=$(grep -vc '^ok ' $LOG)
+echo "seeds=$(wc -l < /tmp/rw/all.txt) lines=$(wc -l < $LOG) not_ok=$bad" | tee -a $LOG
 rm -rf /tmp/rw
 [ "$bad" -eq 0 ]
